@@ -31,15 +31,15 @@ PROPS = {
     "C01": dict(extra=["enum"], profiles=["core", "alloc", "value"], level="proof"),
     "C02": dict(extra=["enum"], profiles=["core", "iters"], level="proof"),
     "C03": dict(extra=["enum"], profiles=["core", "value"], level="proof"),
-    "C04": dict(extra=["enum"], profiles=["core", "alloc"], level="proof"),
+    "C04": dict(extra=["enum", "genwrap"], profiles=["core", "alloc"], level="proof"),
     "C05": dict(extra=["enum"], profiles=["core", "alloc"], level="proof"),
     "C06": dict(profiles=["alloc", "core"], level="proof", extra=["stamps", "genwrap"]),
-    "C07": dict(extra=["enum"], profiles=["alloc", "core"], level="proof"),
+    "C07": dict(extra=["enum", "genwrap"], profiles=["alloc", "core"], level="proof"),
     "C08": dict(extra=["enum"], profiles=["alloc", "core", "value"], level="proof"),
     "C09": dict(profiles=["iters"], level="proof", props=["C09", "C09src"]),
     "C10": dict(profiles=["iters"], level="proof", props=["C10", "C09src"]),
     "C11": dict(profiles=["core", "alloc"], level="proof", extra=["selfcheck", "genwrap"]),
-    "C12": dict(extra=["enum"], profiles=["core", "alloc"], level="proof"),
+    "C12": dict(extra=["enum", "genwrap"], profiles=["core", "alloc"], level="proof"),
     "C13": dict(profiles=["value", "core"], level="proof", extra=["selfcheck", "determinism"]),
     "C14": dict(profiles=["print"], level="proof"),
     "C15": dict(profiles=[], level="proof", extra=["macro"]),
@@ -229,7 +229,7 @@ def view(pid, cmd, line):
     if pid == "C06": return line if (k == "m" or line.startswith("r id")) else None
     if pid == "C07": return a_alloc(line) if k == "a" else (line if (k == "f" or line.startswith("r id")) else None)
     if pid == "C08": return a_pay(line) if k == "a" else (line if k == "x" else None)
-    if pid == "C09": return line if k == "i" else None
+    if pid == "C09": return line if k in "id" else None
     if pid == "C10": return line if k == "d" else None
     if pid == "C11": return line if k == "l" else None
     if pid == "C12": return a_dead(line) if k == "a" else (line if k == "r" else None)
